@@ -19,7 +19,7 @@ ID = 'C14'
 logging.getLogger('cflib.crazyflie.mem.deck_memory').setLevel(logging.ERROR)   # 'Error while decoding deck mem' is expected
 warnings.filterwarnings('ignore', message='pkg_resources is deprecated')
 PROPERTY_FILE = 'C14/Property.v'
-LEVEL = 'proof'
+LEVEL = 'other'
 ALLOWED_AXIOMS = ()
 VERIF = coqrun.VERIF
 
@@ -40,13 +40,13 @@ ASSUMPTIONS = [
     'a read request that does not fit into the memory fails (error status) and the element is not called back',
     'float fields are float32-representable and not signalling NaNs',
 ]
-PROVED = ('For all representable contents: EEPROM (v0/v1) and 1-wire images written by the library parse back to '
+PROVED = ('Histories on one I2CElement/OWElement object (any sequence of update/write_data/disconnect, device image changing in between): the verdict of an update() is the verdict of that read alone, never a value left from an earlier read; pending implies not valid. For all representable contents: EEPROM (v0/v1) and 1-wire images written by the library parse back to '
           'equal content, valid and complete; valid is True exactly when token/version/checksum resp. both CRCs '
           'match; any single corrupted EEPROM byte other than the version byte is detected; the exact condition under '
           'which a version byte 1->0 escapes (F14b); lighthouse geometry/calibration memory layouts and file objects, '
           'deck-info bit fields, anchor lists, trajectory pieces and LED timing sequences have the stated layout and '
           'round-trip; YAML files round-trip under the YAML round-trip hypothesis.')
-NOT_PROVED = ('The clause "any single corrupted EEPROM byte is detected" is refuted for the version byte (F14b, known '
+NOT_PROVED = ('State that leaks between reads of one object is recorded, not excluded: an update is ignored for ever after a read that never completed (F14c), OWElement.elements is never cleared (F14d), radio_address survives a version-0 re-read (F14e). The clause "any single corrupted EEPROM byte is detected" is refuted for the version byte (F14b, known '
               'finding). PyYAML itself is a hypothesis (validated per generated file). Float fields are opaque bit '
               'patterns: rounding of Python doubles to float32 is outside the model.')
 
@@ -95,7 +95,7 @@ def sha(obj):
     return hashlib.sha1(json.dumps(obj, sort_keys=True, default=repr).encode()).hexdigest()[:12]
 
 
-HEADER = '''From CF Require Import Common.Bytes C14.Model C14.Model_lh C14.Model_misc.
+HEADER = '''From CF Require Import Common.Bytes C14.Model C14.Model_lh C14.Model_misc C14.Model_hist.
 From Coq Require Import Ascii.
 Open Scope Z_scope.
 Definition enc_img (o : option (list Z)) : list Z := match o with None => [-1] | Some l => 1 :: l end.
@@ -119,6 +119,17 @@ Definition enc_ow (r : ow_res) : list Z :=
   | OW_Res o => [b2z (ow_valid o); b2z (ow_cb o); ow_pins o; ow_vid o; ow_pid o; enc_exc (ow_exc o)]
                 ++ enc_dict (ow_elements o)
   end.
+Definition enc_ifields (e : option i2c_fields) : list Z :=
+  match e with
+  | None => [0]
+  | Some f => [1; i_version f; i_channel f; i_speed f; i_pitch f; i_roll f] ++ match i_addr f with None => [-1] | Some a => [a] end
+  end.
+Definition enc_itrace (l : list (ist * Z)) : list Z :=
+  concat (map (fun r => [b2z (is_valid (fst r)); is_cbs (fst r); snd r] ++ enc_ifields (is_elems (fst r))) l).
+Definition enc_otrace (l : list (ost * Z * option pyexc)) : list Z :=
+  concat (map (fun r => let st := fst (fst r) in
+    [b2z (os_valid st); os_cbs st; snd (fst r); enc_exc (snd r)]
+    ++ match os_hdr st with None => [-1; -1; -1] | Some (a, b, c) => [a; b; c] end ++ enc_dict (os_elems st)) l).
 Definition enc_geo (o : option lh_geo) : list Z :=
   match o with None => [-1] | Some g => 1 :: b2z (g_valid g) :: g_floats g end.
 Definition enc_calib (o : option lh_calib) : list Z :=
@@ -640,6 +651,25 @@ def ow_tie(ctx, cases):
         cases.add('ow_parse', 'enc_ow (ow_parse %s)' % ZL(mem), ow_enc_parse(o), {'ow_parse': list(mem), 'kind': kind},
                   nontrivial=(k != 'short' and len(mem) > 11))
     return dist
+
+
+def ow_status(mem):
+    """'short' (a read request fails), 'raises' (CRCs match but the TLV walk raises) or 'ok'"""
+    if len(mem) < 11:
+        return 'short'
+    if mem[0] != 0xEB or binascii.crc32(mem[:7]) & 0xFF != mem[7]:
+        return 'ok'
+    n = mem[9]
+    if 11 + n > len(mem):
+        return 'short'
+    if binascii.crc32(mem[8:10 + n]) & 0xFF != mem[10 + n]:
+        return 'ok'
+    area = mem[10:10 + n]
+    while area:
+        if len(area) < 2 or area[0] not in OW_NAMES:
+            return 'raises'
+        area = area[2 + area[1]:]
+    return 'ok'
 
 
 def ow_expected(mem):
@@ -1332,11 +1362,18 @@ DECK_BITS = ['is_valid', 'is_started', 'supports_read', 'supports_write', 'suppo
              'is_bootloader_active', 'supports_reset_to_fw', 'supports_reset_to_bootloader']
 
 
-def deck_impl_parse(data):
+def deck_impl_parse(data, warm=None):
+    """warm = another info section queried first through the SAME manager object (history)"""
     from cflib.crazyflie.mem.deck_memory import DeckMemoryManager
-    fake = MemFake(data, new_data='_new_data', new_data_failed='_new_data_failed', write_done='_write_done')
+    fake = MemFake(warm if warm is not None else data, new_data='_new_data', new_data_failed='_new_data_failed',
+                   write_done='_write_done')
     m = DeckMemoryManager(id=6, type=0x1A, size=0x2000, mem_handler=fake)
     ok, failed = [], []
+    if warm is not None:
+        m.query_decks(lambda d: None, lambda msg: None)
+        fake.run()
+        fake.mem[:] = data
+        fake.reads[:] = []
     try:
         m.query_decks(lambda d: ok.append(d), lambda msg: failed.append(msg))
         fake.run()
@@ -1401,7 +1438,10 @@ def deck_tie(ctx, cases):
         elif k == 1:
             data = bytearray(rng.getrandbits(8) for _ in range(257))
             data[0] = 3
-        r = deck_impl_parse(bytes(data) + bytes(16))
+        warm = None
+        if i % 2 == 1:                                   # history: another section was queried before through the same object
+            warm = bytes([rng.choice([3, 3, 3, 9])]) + b''.join(_fw_deck_record(*x) for x in deck_rnd_infos(rng)) + bytes(16)
+        r = deck_impl_parse(bytes(data) + bytes(16), warm=warm)
         cases.add('deck_info', 'enc_deck (deck_parse %s)' % ZL(data), deck_enc(r, data), {'deck_info': list(data)})
     return {'deck_info': n}
 
@@ -1452,30 +1492,55 @@ def anchor_bytes(x, y, z, v):
     return x.to_bytes(4, 'little') + y.to_bytes(4, 'little') + z.to_bytes(4, 'little') + bytes([v])
 
 
-def loco_impl(nr, pages):
+def loco_impl(nr, pages, warm=None, cut=None):
+    """warm = (nr, pages) of another device content read first through the SAME object (history)"""
     from cflib.crazyflie.mem.loco_memory import LocoMemory
-    mem = bytearray(0x1000 + 0x100 * 256)
-    mem[0] = nr
-    for k, p in enumerate(pages):
-        mem[0x1000 + 0x100 * k:0x1000 + 0x100 * k + 13] = p
-    fake = MemFake(mem)
-    m = LocoMemory(id=3, type=0x11, size=len(mem), mem_handler=fake)
+
+    def device(nr_, pages_):
+        mem = bytearray(0x1000 + 0x100 * 256)
+        mem[0] = nr_
+        for k, p in enumerate(pages_):
+            mem[0x1000 + 0x100 * k:0x1000 + 0x100 * k + 13] = p
+        return mem
+    fake = MemFake(device(*warm) if warm else device(nr, pages))
+    m = LocoMemory(id=3, type=0x11, size=len(fake.mem), mem_handler=fake)
     done = []
+    if warm:
+        m.update(lambda x: None)
+        fake.run()
+        fake.mem[:] = device(nr, pages)
+        fake.reads[:] = []
+    if cut is not None:                                   # the device ends here: the read of that page fails
+        del fake.mem[cut:]
     m.update(lambda x: done.append(1))
     fake.run()
     return {'reads': fake.reads, 'valid': m.valid, 'cb': len(done), 'nr': m.nr_of_anchors,
             'anchors': [[bits32(a.position[0]), bits32(a.position[1]), bits32(a.position[2]), int(bool(a.is_valid))] for a in m.anchor_data]}
 
 
-def loco2_impl(idl, act, pages):
+def loco2_impl(idl, act, pages, warm=None):
+    """warm = (idl, act, pages) of another device content read first through the SAME object (history)"""
     from cflib.crazyflie.mem.loco_memory_2 import LocoMemory2
-    mem = bytearray(0x2000 + 0x100 * 256)
-    mem[0:17] = idl
-    mem[0x1000:0x1000 + 17] = act
-    for k, p in pages.items():
-        mem[0x2000 + 0x100 * k:0x2000 + 0x100 * k + 13] = p
-    fake = MemFake(mem)
-    m = LocoMemory2(id=4, type=0x12, size=len(mem), mem_handler=fake)
+
+    def device(idl_, act_, pages_):
+        mem = bytearray(0x2000 + 0x100 * 256)
+        mem[0:17] = idl_
+        mem[0x1000:0x1000 + 17] = act_
+        for k, p in pages_.items():
+            mem[0x2000 + 0x100 * k:0x2000 + 0x100 * k + 13] = p
+        return mem
+    fake = MemFake(device(*warm) if warm else device(idl, act, pages))
+    m = LocoMemory2(id=4, type=0x12, size=len(fake.mem), mem_handler=fake)
+    if warm:
+        m.update_id_list(lambda x: None)
+        fake.run()
+        m.update_active_id_list(lambda x: None)
+        fake.run()
+        if m.nr_of_anchors > 0:
+            m.update_data(lambda x: None)
+            fake.run()
+        fake.mem[:] = device(idl, act, pages)
+        fake.reads[:] = []
     out = {}
     done = []
     try:
@@ -1515,7 +1580,11 @@ def loco_tie(ctx, cases):
         nr = rng.choice([0, 1, 2, 6, 8, rng.randrange(0, 20)])
         anchors = [rnd_anchor(rng) for _ in range(nr)]
         pages = [anchor_bytes(*a) for a in anchors]
-        o = loco_impl(nr, pages)
+        warm = None
+        if i % 2 == 1:
+            wn = rng.randrange(0, 12)
+            warm = (wn, [anchor_bytes(*rnd_anchor(rng)) for _ in range(wn)])
+        o = loco_impl(nr, pages, warm=warm)
         enc = [int(o['valid']), len(o['reads'])] + [x for r in o['reads'] for x in r] + [x for a in o['anchors'] for x in a]
         enc[0] = enc[0] if o['cb'] == 1 else -7
         cases.add('loco', 'enc_loco (loco_update %d %s)' % (nr, coqrun.zlistlist(pages)), enc, {'loco': [nr, anchors]}, nontrivial=nr > 0)
@@ -1527,7 +1596,12 @@ def loco_tie(ctx, cases):
         idl = bytes([cnt] + ids)
         act = bytes([rng.choice([0, 2, 16, 17, 255])] + [rng.randrange(256) for _ in range(16)])
         pages = {k: anchor_bytes(*rnd_anchor(rng)) for k in set(ids[:min(cnt, 16)])}
-        o = loco2_impl(idl, act, pages)
+        warm = None
+        if i % 2 == 1:
+            wids = rng.sample(range(256), rng.randrange(0, 17))
+            warm = (bytes([len(wids)] + wids + [0] * (16 - len(wids))), bytes([3, 9, 8, 7] + [0] * 13),
+                    {k: anchor_bytes(*rnd_anchor(rng)) for k in wids})
+        o = loco2_impl(idl, act, pages, warm=warm)
         cases.add('loco2_ids', 'enc_ids (loco2_ids %s)' % ZL(idl), o['ids'], {'loco2_ids': list(idl)})
         cases.add('loco2_ids', 'enc_ids (loco2_ids %s)' % ZL(act), o['act'], {'loco2_active_ids': list(act)})
         if o['data'] is not None:
@@ -1544,7 +1618,17 @@ def loco_tie(ctx, cases):
 def loco_check(c):
     if c['op'] == 'loco':
         anchors = c['anchors']
-        o = loco_impl(len(anchors), [anchor_bytes(*a) for a in anchors])
+        warm = None
+        if c.get('warm_anchors') is not None:            # history: another anchor set was read before through the same object
+            warm = (len(c['warm_anchors']), [anchor_bytes(*a) for a in c['warm_anchors']])
+        if c.get('cut_page') is not None:
+            # the read of page cut_page fails: the update never completes and valid must not survive from the earlier read
+            o = loco_impl(len(anchors), [anchor_bytes(*a) for a in anchors], warm=warm, cut=0x1000 + 0x100 * c['cut_page'] + 5)
+            if o['valid'] or o['cb']:
+                return {'class': 'loco_valid_not_last_read', 'case': c, 'expected': {'valid': False, 'cb': 0}, 'observed': o,
+                        'detail': 'an update whose page read fails must not leave valid=True from an earlier read'}
+            return None
+        o = loco_impl(len(anchors), [anchor_bytes(*a) for a in anchors], warm=warm)
         want = [[a[0], a[1], a[2], int(a[3] != 0)] for a in anchors]
         want_reads = [(0, 1)] + [(0x1000 + 0x100 * k, 13) for k in range(len(anchors))]
         if o['anchors'] != want or not o['valid'] or o['cb'] != 1 or o['reads'] != want_reads:
@@ -1552,7 +1636,11 @@ def loco_check(c):
         return None
     ids, anchors = c['ids'], {int(k): v for k, v in c['anchors'].items()}
     idl = bytes([len(ids)] + ids + [0] * (16 - len(ids)))
-    o = loco2_impl(idl, bytes(17), {k: anchor_bytes(*a) for k, a in anchors.items()})
+    warm = None
+    if c.get('warm_ids') is not None:
+        wids = c['warm_ids']
+        warm = (bytes([len(wids)] + wids + [0] * (16 - len(wids))), bytes(17), {k: anchor_bytes(k, 1, 2, 1) for k in wids})
+    o = loco2_impl(idl, bytes(17), {k: anchor_bytes(*a) for k, a in anchors.items()}, warm=warm)
     want = {k: [k, a[0], a[1], a[2], int(a[3] != 0)] for k, a in anchors.items()}
     got = None if o['data'] is None else {a[0]: a for a in o['data'][1]}
     if o['ids'] != [1] + ids or (ids and got != want) or (ids and not o.get('data_done')) or \
@@ -1570,6 +1658,15 @@ def loco_oracle(ctx, deep):
         else:
             ids = rng.sample(range(256), rng.randrange(0, 17))
             c = {'codec': 'loco', 'op': 'loco2', 'ids': ids, 'anchors': {str(k): rnd_anchor(rng) for k in ids}}
+        if i % 4 >= 2:
+            if c['op'] == 'loco':
+                c['warm_anchors'] = [rnd_anchor(rng) for _ in range(rng.randrange(1, 10))]
+                if i % 8 >= 6:
+                    c['anchors'] = []                     # an empty list after a non-empty one
+                elif c['anchors'] and i % 16 == 2:
+                    c['cut_page'] = rng.randrange(len(c['anchors']))
+            else:
+                c['warm_ids'] = rng.sample(range(256), rng.randrange(1, 17))
         r = loco_check(c)
         n += 1
         if r:
@@ -1759,10 +1856,391 @@ def misc_oracle(ctx, deep):
     return n, fails
 
 
+
+# ---------------------------------------------------------------------------------------------- histories on one object
+
+def i2c_fields_dict(f):
+    d = {'version': f['version'], 'radio_channel': f['channel'], 'radio_speed': f['speed'],
+         'pitch_trim': f32(f['pitch']), 'roll_trim': f32(f['roll'])}
+    if f.get('addr') is not None:
+        d['radio_address'] = f['addr']
+    return d
+
+
+def i2c_elements_obs(e):
+    if not e:
+        return None
+    return {'version': e['version'], 'channel': e['radio_channel'], 'speed': e['radio_speed'],
+            'pitch': bits32(e['pitch_trim']), 'roll': bits32(e['roll_trim']), 'addr': e.get('radio_address')}
+
+
+def i2c_hist_impl(ops):
+    """one I2CElement, one device; ops: ['update'] ['write', fields] ['corrupt', p, v] ['setmem', bytes] ['disconnect'].
+    Returns per op {'valid', 'cbs', 'n', 'fields'}; n = read requests of an update, 1 / -1 for an accepted / raising write"""
+    from cflib.crazyflie.mem.i2c_element import I2CElement
+    fake = MemFake(b'')
+    el = I2CElement(id=0, type=0, size=8192, mem_handler=fake)
+    called, obs = [], []
+    for op in ops:
+        n, r0 = 0, len(fake.reads)
+        try:
+            if op[0] == 'update':
+                el.update(lambda m: called.append(m.valid))
+                fake.run()
+                n = len(fake.reads) - r0
+            elif op[0] == 'write':
+                el.elements = i2c_fields_dict(op[1])
+                n = -1
+                el.write_data(lambda *a: None)
+                fake.run()
+                n = 1
+            elif op[0] == 'corrupt':
+                if op[1] < len(fake.mem):
+                    fake.mem[op[1]] = op[2]
+            elif op[0] == 'setmem':
+                fake.mem[:] = bytes(op[1])
+            elif op[0] == 'disconnect':
+                el.disconnect()
+        except (struct.error, KeyError, OverflowError):
+            fake.queue[:] = []
+        obs.append({'valid': bool(el.valid), 'cbs': len(called), 'n': n, 'fields': i2c_elements_obs(el.elements)})
+    return obs
+
+
+def i2c_hist_enc(obs):
+    out = []
+    for o in obs:
+        out += [int(o['valid']), o['cbs'], o['n']]
+        f = o['fields']
+        out += [0] if f is None else [1, f['version'], f['channel'], f['speed'], f['pitch'], f['roll'], -1 if f['addr'] is None else f['addr']]
+    return out
+
+
+def i2c_hist_term(ops):
+    ts = []
+    for op in ops:
+        if op[0] == 'update':
+            ts.append('IUpdate')
+        elif op[0] == 'write':
+            ts.append('IWrite %s' % i2c_fields_term(op[1]))
+        elif op[0] == 'corrupt':
+            ts.append('ICorrupt %d %d' % (op[1], op[2]))
+        elif op[0] == 'setmem':
+            ts.append('ISetMem %s' % ZL(op[1]))
+        else:
+            ts.append('IDisconnect')
+    return 'enc_itrace (i2c_trace (ist_init, []) [%s])' % '; '.join(ts)
+
+
+def _snan_free(mem, offsets):
+    m = bytearray(mem)
+    return bytes(_quiet(bytearray(m), offsets)) == bytes(m)
+
+
+def i2c_sim_write(mem, f):
+    """generator-side device simulation (independent of the model): the image the firmware layout prescribes, or None"""
+    try:
+        if f['version'] in (0, 1):
+            if not (0 <= f['channel'] < 256 and 0 <= f['speed'] < 256):
+                return None
+            if f['version'] == 1 and not (0 <= f['addr'] < (1 << 40)):
+                return None
+            img = i2c_ref_image(f)
+        else:
+            img = TOKEN + bytes([sum(TOKEN) & 0xFF])
+    except Exception:  # noqa
+        return None
+    return img + bytes(mem[len(img):])
+
+
+def i2c_rnd_history(rng, wedge=True):
+    """ops + the device image after each op (generator-side simulation)"""
+    ops, mems = [], []
+    mem = b''
+    first = rng.random()
+    if first < 0.3:
+        mem, _ = i2c_rnd_mem(rng)
+        while len(mem) < 21:
+            mem, _ = i2c_rnd_mem(rng)
+        ops.append(['setmem', list(mem)])
+    else:
+        f = i2c_rnd_fields(rng)
+        mem = i2c_sim_write(mem, f) + bytes(rng.getrandbits(8) for _ in range(rng.choice([0, 5, 6])))
+        ops.append(['setmem', list(mem)])
+    mems.append(mem)
+    for _ in range(rng.randrange(2, 9)):
+        r = rng.random()
+        if r < 0.42:
+            op = ['update']
+        elif r < 0.60:
+            f = i2c_rnd_fields(rng, wf=(rng.random() < 0.85 or not wedge))
+            if not wedge and f['version'] not in (0, 1):
+                f['version'] = 0
+            new = i2c_sim_write(mem, f)
+            op = ['write', f]
+            if new is not None:
+                mem = new
+        elif r < 0.85 and mem:
+            for _try in range(8):
+                p = min(rng.choice([rng.randrange(len(mem)), rng.randrange(min(len(mem), 21)), 4]), len(mem) - 1)
+                v = rng.choice([rng.getrandbits(8), mem[p] ^ 1, 0, 1, 255, mem[p] ^ 0x80])
+                if not wedge and p == 4 and v not in (0, 1):
+                    continue
+                cand = bytearray(mem)
+                cand[p] = v
+                if v != mem[p] and _snan_free(cand, (7, 11)):
+                    break
+            else:
+                continue
+            op = ['corrupt', p, v]
+            mem = bytes(cand)
+        elif r < 0.92:
+            m2, _ = i2c_rnd_mem(rng)
+            if len(m2) < 21 and not wedge:
+                continue
+            mem = m2
+            op = ['setmem', list(mem)]
+        else:
+            op = ['disconnect']
+        ops.append(op)
+        mems.append(mem)
+    if ops[-1][0] != 'update':
+        ops.append(['update'])
+        mems.append(mem)
+    return ops, mems
+
+
+def i2c_expected_fields(mem):
+    """independent decode of the fields of a valid image"""
+    f = {'version': mem[4], 'channel': mem[5], 'speed': mem[6], 'pitch': int.from_bytes(mem[7:11], 'little'),
+         'roll': int.from_bytes(mem[11:15], 'little'), 'addr': None}
+    if mem[4] == 1:
+        f['addr'] = mem[15] << 32 | int.from_bytes(mem[16:20], 'little')
+    return f
+
+
+def i2c_hist_check(c):
+    """property text on a history: after every update() the verdict is the checksum verdict of the device image at that
+    moment, and a valid verdict comes with exactly the fields of that image"""
+    ops = c['ops']
+    obs = i2c_hist_impl(ops)
+    mem = b''
+    unfinished = False              # an earlier update met an unknown version byte / a failing read, no disconnect since
+    for k, (op, o) in enumerate(zip(ops, obs)):
+        if op[0] == 'write':
+            new = i2c_sim_write(mem, op[1])
+            mem = new if new is not None else mem
+        elif op[0] == 'corrupt':
+            if op[1] < len(mem):
+                mem = mem[:op[1]] + bytes([op[2]]) + mem[op[1] + 1:]
+        elif op[0] == 'setmem':
+            mem = bytes(op[1])
+        elif op[0] == 'disconnect':
+            unfinished = False
+        elif op[0] == 'update':
+            if len(mem) < 21:
+                unfinished = True
+                continue
+            want = i2c_expected_valid(mem)
+            if o['valid'] != want:
+                cls = 'i2c_valid_not_last_read'
+                if unfinished and want and not o['valid'] and o['n'] == 0:
+                    cls = 'i2c_update_ignored_after_unfinished_read'
+                return {'class': cls, 'case': c, 'expected': {'op': k, 'valid': want, 'device': list(mem)}, 'observed': o,
+                        'detail': 'after update() number %d of the history valid must be the checksum verdict of the image the device holds then' % k}
+            if want:
+                wf = i2c_expected_fields(mem)
+                if o['fields'] != wf:
+                    cls = 'i2c_fields_not_last_read'
+                    if wf['version'] == 0 and o['fields'] is not None and dict(o['fields'], addr=None) == wf:
+                        cls = 'i2c_stale_radio_address_after_v0_reread'
+                    return {'class': cls, 'case': c, 'expected': {'op': k, 'fields': wf}, 'observed': o,
+                            'detail': 'a valid read must report exactly the fields of the image read'}
+            if mem[0:4] == TOKEN and mem[4] not in (0, 1) and not unfinished:
+                unfinished = True
+    return None
+
+
+def ow_hist_impl(ops):
+    """one OWElement, one device; ops: ['update'] ['write', pins, vid, pid, els] ['corrupt', p, v] ['setmem', bytes] ['disconnect']"""
+    from cflib.crazyflie.mem.ow_element import OWElement
+    fake = MemFake(b'')
+    el = OWElement(id=1, type=1, size=112, addr=0x1234, mem_handler=fake)
+    called, obs = [], []
+    for op in ops:
+        n, r0, exc = 0, len(fake.reads), None
+        try:
+            if op[0] == 'update':
+                try:
+                    el.update(lambda m: called.append(m.valid))
+                    fake.run()
+                finally:
+                    n = len(fake.reads) - r0
+            elif op[0] == 'write':
+                el.pins, el.vid, el.pid = op[1], op[2], op[3]
+                el.elements = {OW_NAMES[k]: bytes(s).decode('ISO-8859-1') for k, s in op[4]}
+                n = -1
+                el.write_data(lambda *a: None)
+                fake.run()
+                n = 1
+            elif op[0] == 'corrupt':
+                if op[1] < len(fake.mem):
+                    fake.mem[op[1]] = op[2]
+            elif op[0] == 'setmem':
+                fake.mem[:] = bytes(op[1])
+            elif op[0] == 'disconnect':
+                el.disconnect()
+        except Exception as e:  # noqa
+            fake.queue[:] = []
+            if op[0] == 'update':
+                exc = exc_kind(e)
+        hdr = [-1, -1, -1] if el.pins is None else [el.pins, el.vid, el.pid]
+        obs.append({'valid': bool(el.valid), 'cbs': len(called), 'n': n, 'exc': exc, 'hdr': hdr,
+                    'elements': [[OW_IDS[k], list(v.encode('ISO-8859-1'))] for k, v in el.elements.items()]})
+    return obs
+
+
+def ow_hist_enc(obs):
+    out = []
+    for o in obs:
+        out += [int(o['valid']), o['cbs'], o['n'], EXC_CODE.get(o['exc'], 9)] + o['hdr'] + [len(o['elements'])]
+        for k, sv in o['elements']:
+            out += [k, len(sv)] + list(sv)
+    return out
+
+
+def ow_hist_term(ops):
+    ts = []
+    for op in ops:
+        if op[0] == 'update':
+            ts.append('OUpdate')
+        elif op[0] == 'write':
+            ts.append('OWrite %s %s %s %s' % (Z(op[1]), Z(op[2]), Z(op[3]), ow_dict_term(op[4])))
+        elif op[0] == 'corrupt':
+            ts.append('OCorrupt %d %d' % (op[1], op[2]))
+        elif op[0] == 'setmem':
+            ts.append('OSetMem %s' % ZL(op[1]))
+        else:
+            ts.append('ODisconnect')
+    return 'enc_otrace (ow_trace (ost_init, []) [%s])' % '; '.join(ts)
+
+
+def ow_sim_write(mem, pins, vid, pid, els):
+    if not (0 <= pins < (1 << 32) and 0 <= vid < 256 and 0 <= pid < 256):
+        return None
+    if any(len(sv) > 255 for _, sv in els) or sum(len(sv) + 2 for _, sv in els) > 255:
+        return None
+    img = ow_ref_image(pins, vid, pid, list(reversed(els)))
+    return img + bytes(mem[len(img):])
+
+
+def ow_rnd_history(rng, wedge=True):
+    ops = []
+    mem = b''
+    for step in range(rng.randrange(3, 9)):
+        r = rng.random() if step else 0.5
+        if r < 0.40 and mem:
+            if not wedge and ow_status(mem) != 'ok':
+                continue
+            op = ['update']
+        elif r < 0.62:
+            pins, vid, pid, els = ow_rnd_content(rng, wf=(rng.random() < 0.9 or not wedge))
+            while sum(len(sv) + 2 for _, sv in els) > 90:
+                els = els[:-1]
+            els = [(k, list(sv)) for k, sv in els]
+            new = ow_sim_write(mem, pins, vid, pid, els)
+            op = ['write', pins, vid, pid, [[k, sv] for k, sv in els]]
+            if new is not None:
+                mem = new
+        elif r < 0.82 and mem:
+            p = rng.choice([rng.randrange(len(mem)), rng.randrange(min(len(mem), 14))])
+            v = rng.choice([rng.getrandbits(8), mem[p] ^ 1, 0, 255])
+            if v == mem[p]:
+                continue
+            op = ['corrupt', p, v]
+            mem = mem[:p] + bytes([v]) + mem[p + 1:]
+        elif r < 0.93:
+            m2, _ = ow_rnd_mem(rng, size=rng.choice([64, 112]))
+            if len(m2) < 11 and not wedge:
+                continue
+            mem = m2
+            op = ['setmem', list(mem)]
+        else:
+            op = ['disconnect']
+        ops.append(op)
+    if ops[-1][0] != 'update' and (wedge or ow_status(mem) == 'ok'):
+        ops.append(['update'])
+    return ops
+
+
+def ow_hist_check(c):
+    ops = [list(o) for o in c['ops']]
+    for o in ops:
+        if o[0] == 'write':
+            o[4] = [(k, list(sv)) for k, sv in o[4]]
+    obs = ow_hist_impl(ops)
+    mem = b''
+    for k, (op, o) in enumerate(zip(ops, obs)):
+        if op[0] == 'write':
+            new = ow_sim_write(mem, op[1], op[2], op[3], op[4])
+            mem = new if new is not None else mem
+        elif op[0] == 'corrupt':
+            if op[1] < len(mem):
+                mem = mem[:op[1]] + bytes([op[2]]) + mem[op[1] + 1:]
+        elif op[0] == 'setmem':
+            mem = bytes(op[1])
+        elif op[0] == 'update':
+            if ow_status(mem) != 'ok':
+                return None                     # a read that never completes: outside this oracle (covered by the tie)
+            want, d = ow_expected(mem)
+            if o['valid'] != want or o['exc']:
+                return {'class': 'ow_valid_not_last_read', 'case': c, 'expected': {'op': k, 'valid': want, 'device': list(mem)},
+                        'observed': o, 'detail': 'after update() number %d valid must be the CRC verdict of the image the device holds then' % k}
+            if want:
+                got = {kk: sv for kk, sv in o['elements']}
+                hdr = [int.from_bytes(mem[1:5], 'little'), mem[5], mem[6]]
+                if got != d or o['hdr'] != hdr:
+                    cls = 'ow_elements_not_last_read'
+                    if o['hdr'] == hdr and all(got.get(kk) == sv for kk, sv in d.items()) and len(got) > len(d):
+                        cls = 'ow_stale_elements_after_reread'
+                    return {'class': cls, 'case': c, 'expected': {'op': k, 'elements': d, 'hdr': hdr}, 'observed': o,
+                            'detail': 'a valid read must report exactly the elements of the image read'}
+    return None
+
+
+def hist_tie(ctx, cases):
+    rng = ctx.rng
+    n = ctx.scale(110, 1500)
+    for i in range(n):
+        ops, _ = i2c_rnd_history(rng)
+        cases.add('i2c_history', i2c_hist_term(ops), i2c_hist_enc(i2c_hist_impl(ops)), {'i2c_history': ops},
+                  nontrivial=sum(1 for o in ops if o[0] == 'update') >= 2)
+    for i in range(n):
+        ops = ow_rnd_history(rng)
+        cases.add('ow_history', ow_hist_term(ops), ow_hist_enc(ow_hist_impl(ops)), {'ow_history': ops},
+                  nontrivial=sum(1 for o in ops if o[0] == 'update') >= 2)
+    return {'i2c_history': n, 'ow_history': n}
+
+
+def hist_oracle(ctx, deep):
+    rng = ctx.rng
+    fails, n = [], 0
+    for i in range(ctx.scale(400, 4000) * (3 if deep else 1)):
+        if i % 2 == 0:
+            ops, _ = i2c_rnd_history(rng, wedge=(i % 8 == 0))
+            r = i2c_hist_check({'codec': 'i2c', 'op': 'history', 'ops': ops})
+        else:
+            r = ow_hist_check({'codec': 'ow', 'op': 'history', 'ops': ow_rnd_history(rng, wedge=False)})
+        n += 1
+        if r:
+            fails.append(r)
+    return n, fails
+
+
 # ---------------------------------------------------------------------------------------------- module interface
 
-SECTIONS_TIE = [('crc', crc_tie), ('i2c', i2c_tie), ('ow', ow_tie), ('lh', lh_tie), ('yaml', yaml_tie), ('deck', deck_tie), ('loco', loco_tie), ('traj', traj_tie), ('timings', timings_tie)]
-SECTIONS_ORACLE = [('i2c', i2c_oracle), ('ow', ow_oracle), ('lh', lh_oracle), ('yaml', yaml_oracle), ('deck', deck_oracle), ('loco', loco_oracle), ('misc', misc_oracle)]
+SECTIONS_TIE = [('crc', crc_tie), ('i2c', i2c_tie), ('ow', ow_tie), ('lh', lh_tie), ('yaml', yaml_tie), ('deck', deck_tie), ('loco', loco_tie), ('traj', traj_tie), ('timings', timings_tie), ('hist', hist_tie)]
+SECTIONS_ORACLE = [('i2c', i2c_oracle), ('ow', ow_oracle), ('lh', lh_oracle), ('yaml', yaml_oracle), ('deck', deck_oracle), ('loco', loco_oracle), ('misc', misc_oracle), ('hist', hist_oracle)]
 
 
 def _corpus():
@@ -1792,7 +2270,7 @@ def tie(ctx):
                 nontriv += 1
     evals = len(cases.items) + 255 * sum(1 for it in cases.items if it[0] == 'crc32' and len(it[2]) == 256)
     samples = []
-    for kind in ('i2c_write', 'i2c_parse', 'ow_write', 'ow_parse'):
+    for kind in ('i2c_history', 'ow_history', 'i2c_parse', 'ow_parse', 'i2c_write', 'ow_write'):
         for it in cases.items:
             if it[0] == kind and it[4]:
                 samples.append({'kind': kind, 'case': it[3], 'impl_encoded': it[2][:40]})
@@ -1851,6 +2329,8 @@ def oracle(ctx, deep=False):
 def replay(payload, ctx):
     c = payload['case']
     codec, op = c.get('codec'), c.get('op')
+    if op == 'history':
+        return (i2c_hist_check if codec == 'i2c' else ow_hist_check)(c)
     if codec == 'i2c' and op == 'roundtrip':
         return i2c_check_roundtrip(c['fields'], bytes(c.get('tail', [])))
     if codec == 'i2c' and op == 'corrupt':
@@ -1877,5 +2357,6 @@ def replay(payload, ctx):
 
 
 lh_check, yaml_check, deck_check, loco_check, misc_check = map(_safe, (lh_check, yaml_check, deck_check, loco_check, misc_check))
+i2c_hist_check, ow_hist_check = _safe(i2c_hist_check), _safe(ow_hist_check)
 REPLAYERS = {'lh': lambda c, ctx: lh_check(c), 'yaml': lambda c, ctx: yaml_check(c), 'deck': lambda c, ctx: deck_check(c),
              'loco': lambda c, ctx: loco_check(c), 'misc': lambda c, ctx: misc_check(c)}
